@@ -99,7 +99,7 @@ def gen_cases(pid, tier, seed):
         lmax = 4 if pid == "C06" else 3
         nsh = rng.randint(1, 3 if quick else 4)
         cens = [cg.center(rng) for _ in range(2)]
-        basis = [cg.shell(rng, rng.randint(0, lmax), K=rng.randint(1, 3), M=rng.randint(1, 2), bits=10 if quick else 24,
+        basis = [cg.shell(rng, rng.randint(0, lmax), K=rng.randint(1, 3), M=rng.randint(1, 2), bits=24,
                           hi=min(200.0, cg.exp_cap(lmax)), cen=rng.choice(cens) if rng.random() < 0.5 else None)
                  for _ in range(nsh)]
         nb = sum(layout.size(s) for s in basis)
